@@ -55,6 +55,7 @@ def gen(rng, tier):
     gs = [G.mk_cfg([rng.choice(pool) for _ in range(rng.choice([1, 2, 3]))], 'S', extra_vars=['A']) for _ in range(60 if quick else 1500)]
     gs += [G.random_cfg(rng, rng.randint(1, 3), 2, rng.randint(1, 5), maxlen=3) for _ in range(40 if quick else 1000)]
     gs += [G.random_cnf(rng, rng.randint(2, 4), 2, rng.randint(2, 7)) for _ in range(60 if quick else 1500)]
+    gs += [G.nullable_chain_cfg(rng) for _ in range(25 if quick else 500)]
     for g in gs:
         cases.append({'kind': 'cfg', 'X': g, 'ns': [0, 1, 2, 3]})
     for c in [x for x in C09.gen(rng, tier) if len(x['P']['Q']) <= 10][:(70 if quick else 1500)]:
